@@ -20,9 +20,16 @@ func main() {
 		fmt.Fprintln(os.Stderr, "usage: verifsim check <id> [quick|thorough] | replay [-v] <file> | determinism <id> [n] | describe|worker|shrink ...")
 		os.Exit(2)
 	}
+	// The verification directory is where this binary lives (<verif>/bin/verifsim), so a snapshot
+	// of /verif run elsewhere uses its own binaries, evidence and replays.
 	verif := os.Getenv("VERIF_DIR")
 	if verif == "" {
 		verif = "/verif"
+		if exe, err := os.Executable(); err == nil {
+			if d := filepath.Dir(filepath.Dir(exe)); filepath.Base(filepath.Dir(exe)) == "bin" {
+				verif = d
+			}
+		}
 	}
 	cfg := orch.Config{VerifDir: verif, BinDir: filepath.Join(verif, "bin")}
 	switch os.Args[1] {
